@@ -16,6 +16,13 @@ demo_without="na"; demo_with="na"
 if [ -f "$dir/demo.py" ]; then
   (cd "$wt" && PYTHONPATH="$wt/src" timeout 600 /venv/bin/python "$dir/demo.py" >/tmp/mt/demo-$id.out 2>&1); demo_without=$?
 fi
+base="HEAD"
+if ! git -C "$wt" apply --check "$dir/patch.diff" 2>/dev/null; then
+  # built against an earlier commit of this session: fall back to that base (MUTANT_BASE)
+  if [ -n "${MUTANT_BASE:-}" ]; then
+    git -C /repo worktree remove --force "$wt" >/dev/null 2>&1; git -C /repo worktree add -q --detach "$wt" "$MUTANT_BASE" || exit 3; base="$MUTANT_BASE"
+  fi
+fi
 if ! git -C "$wt" apply "$dir/patch.diff"; then echo "{\"id\": \"$id\", \"error\": \"patch does not apply\"}"; exit 3; fi
 tests=$(cd "$wt" && env -u CELPY_VERIF PYTHONPATH="$wt/src" timeout 1200 /venv/bin/python -m pytest -q -p no:cacheprovider --timeout=900 --continue-on-collection-errors 2>&1 | tail -1)
 if [ -f "$dir/demo.py" ]; then
@@ -26,5 +33,5 @@ out=$(VERIF_REPO="$wt" VERIF_EVIDENCE_DIR="/tmp/mt/ev-$id" timeout 3600 ./check 
 nviol=$(printf '%s\n' "$out" | grep -c '^VIOLATION')
 first=$(printf '%s\n' "$out" | grep -A2 '^VIOLATION' | sed -n 2,3p | tr '\n' ' ' | cut -c1-400 | sed 's/"/\\"/g')
 summary=$(printf '%s\n' "$out" | tail -1 | cut -c1-300 | sed 's/"/\\"/g')
-echo "{\"id\": \"$id\", \"property\": \"$prop\", \"tier\": \"$tier\", \"tests\": \"$tests\", \"demo_without\": \"$demo_without\", \"demo_with\": \"$demo_with\", \"check_exit\": $rc, \"violation_lines\": $nviol, \"first\": \"$first\", \"summary\": \"$summary\"}"
+echo "{\"id\": \"$id\", \"base\": \"$base\", \"property\": \"$prop\", \"tier\": \"$tier\", \"tests\": \"$tests\", \"demo_without\": \"$demo_without\", \"demo_with\": \"$demo_with\", \"check_exit\": $rc, \"violation_lines\": $nviol, \"first\": \"$first\", \"summary\": \"$summary\"}"
 rm -f /tmp/mt/demo-$id.out
